@@ -3,6 +3,7 @@
   Statements about `builtinCore`, `printLine/formatPrint` and the machine-level `callBuiltin`.
 -/
 import Nlmodel.Model.Pipeline
+import Nlmodel.Proofs.Lemmas.SimHOps
 namespace Nl
 namespace C14
 
@@ -174,6 +175,19 @@ theorem C14_print_first_placeholder (pre post a : Text) (as : List Text) (hpre :
 
 example : formatPrint "{} {}".toList ["{}".toList, "x".toList] = "{} x".toList := by decide
 example : formatPrint "a{}b{}c{}".toList ["1".toList] = "a1b{}c{}".toList := by decide
+
+/-- EVERY BUILTIN, ON THE MACHINE AS IN THE SEMANTICS: for related argument lists (any number of
+    arguments, any value kinds, nested and cyclic arrays) a builtin call yields related results, the
+    same printed line for `print` (deep view equal: `SimH.tree_rel`), the same arity/type/argument
+    error otherwise, and leaves the two heaps related (stage 5 of the simulation) -/
+theorem C14_builtin_agrees {s0 : VM} {CS : List Const} {Γ : Sim.Gam} {μ : SimH.AMap} {st : Spec.SState} {g : Array Value} {l : Value} {m : Mem} {out : List Text}
+    (hinv : SimH.Inv5 s0 CS Γ μ st g l m out) (b : Builtin) (xs : List Spec.SVal) (ms : List Value) (hl : SimH.VRL μ st m.heap xs ms) :
+    match SimH.specBuiltin b xs st with
+    | .val r st' => ∃ μ' mr m' out', callBuiltin b ms m out = .ok (mr, m', out') ∧ SimH.Inv5 s0 CS Γ μ' st' g l m' out' ∧
+        SimH.Grow μ st m.heap μ' st' m'.heap ∧ SimH.VRh μ' st' m'.heap r mr
+    | .err e _ => callBuiltin b ms m out = .error e
+    | _ => True :=
+  SimH.builtin_rel hinv b xs ms hl
 
 end C14
 end Nl
